@@ -20,6 +20,35 @@ def harnesses(tier):
     return hs
 
 
+MH = "handle::verif_c10_handle"
+
+
+def setup_handle(w, name=""):
+    w.transform("T3 diagnostic printing (print_report + to_report) compiled out under cfg(kani)", "yash-semantics/src/handle.rs",
+                "        print_report(env, &self.to_report()).await;",
+                "        #[cfg(not(kani))]\n        print_report(env, &self.to_report()).await;", count=3)
+    w.inject("yash-semantics/src/handle.rs", "c10_handle.rs")
+    return core.KaniSession(w, w.ws, pkg="yash-semantics", tag="sem", zflags=["stubbing"])
+
+
+def handle_harnesses():
+    H = "yash_semantics::handle::"
+    st = ["std::hash::RandomState::new -> fixed keys", "T3: print_report(...) compiled out"]
+    b = "errexit option, exit status (all i32), 0-2 frames (condition / loop / subshell) symbolic"
+    return [
+        Harness("c10_handle_expansion_error", b + "; cause: interrupted (status: all i32) or command-substitution error",
+                [H + "<expansion::Error as Handle>::handle", "yash_env::Env::errexit_is_applicable"],
+                "expansion error: interrupt with status 2, exit under applicable errexit; interruption keeps its status",
+                timeout=1200, mod=MH, stubs=st, recursion_bounds=core.LOCATION_RECURSION),
+        Harness("c10_handle_redirection_error", b, [H + "<redir::Error as Handle>::handle"],
+                "redirection error only sets $? = 2 and execution continues", timeout=1200, mod=MH, stubs=st,
+                recursion_bounds=core.LOCATION_RECURSION),
+        Harness("c10_handle_syntax_error", b, [H + "<parser::Error as Handle>::handle"],
+                "syntax error interrupts with status 2", timeout=1200, mod=MH, stubs=st,
+                recursion_bounds=core.LOCATION_RECURSION),
+    ]
+
+
 def run(tier, seed, only=None):
     out = core.Outcome(PID, tier, seed)
     out.engines = ["E1 kani 0.68 / CBMC 6.11 / CaDiCaL"]
@@ -33,13 +62,23 @@ def run(tier, seed, only=None):
         w = core.Workspace("c10")
         sess = setup(w)
         hs = [h for h in harnesses(tier) if not only or h.name in only]
-        res = sess.run_all(hs, jobs=4)
+        res = sess.run_all(hs, jobs=5) if hs else []
         out.extra.update({"kani_build_s": round(sess.build_s, 1), "repo_state": w.repo_state,
                           "injected": w.injected, "transforms": w.transforms})
         out.add_kani_results(res, sess, core.load_known(PID), PID)
+        hh = [h for h in handle_harnesses() if not only or h.name in only]
+        if hh:
+            s2 = setup_handle(w)
+            res2 = s2.run_all(hh, jobs=3)
+            out.extra["kani_build_s_handle"] = round(s2.build_s, 1)
+            out.extra["injected"] = w.injected
+            out.extra["transforms"] = w.transforms
+            out.add_kani_results(res2, s2, core.load_known(PID), PID)
 
     return core.guarded(out, body, trusted=["rustc MIR", "Kani 0.68", "CBMC 6.11", "CaDiCaL"])
 
 
 def replay(path):
-    return core.generic_replay(PID, path, setup)
+    with open(path) as f:
+        is_handle = "c10_handle_" in f.read(400)
+    return core.generic_replay(PID, path, setup_handle if is_handle else setup)
